@@ -582,8 +582,15 @@ def fillerEnter (cl : Closure) (s : RState) : RState :=
                       slotFns := cl.slotFns }
   { s with env := { s.env with root := s.env.rootDict, hasRoot := true, frames := fr :: s.env.frames } }
 
-/-- back in the macro: the filler's scope is gone (no `update`), its `__token` was its own local variable -/
+/-- back in the macro: the filler's scope is gone, its `__token` was its own local variable; the macro's scope is
+updated with the global definitions (`econtext.update(rcontext)`, after the D-09c fix) -/
 def fillerLeave (s s' : RState) : RState :=
+  { s' with env := { s.env with rcontext := s'.env.rcontext, repeats := s'.env.repeats,
+                                 own := updateOwn s.env.own s'.env.rcontext },
+            x := { s'.x with token := s.x.token } }
+
+/-- … after the filler raised: no update -/
+def fillerRaise (s s' : RState) : RState :=
   { s' with env := { s.env with rcontext := s'.env.rcontext, repeats := s'.env.repeats },
             x := { s'.x with token := s.x.token } }
 
@@ -791,7 +798,7 @@ def eval (cfg : ECfg) (al : List (Str × Val)) : Nat → Node → RM Unit
         | some cl =>
           match eval cfg cl.al f cl.node (fillerEnter cl s) with
           | .ok () s' => .ok () (fillerLeave s s')
-          | .raised ex s' => .raised ex (fillerLeave s s')
+          | .raised ex s' => .raised ex (fillerRaise s s')
           | .unsupported w => .unsupported w
       | _ => eval cfg al f node s
     | .useExternal e slots extend => do
